@@ -15,6 +15,16 @@ fn main() {
   let seed: u64 = a.get(1).and_then(|s| s.parse().ok()).unwrap_or(1);
   let first: u64 = a.get(2).and_then(|s| s.parse().ok()).unwrap_or(0);
   let count: u64 = a.get(3).and_then(|s| s.parse().ok()).unwrap_or(40);
+  // monitor self-test: `vmiri <seed> <first> <count> selftest-ub` reads one byte past a heap buffer, which
+  // valgrind memcheck and Miri must both report (tools/interp_legs.sh selftest)
+  if a.get(4).map_or(false, |s| s == "selftest-ub") {
+    let v: Vec<u8> = vec![1, 2, 3, 4, 5, 6, 7, 8];
+    let p = v.as_ptr();
+    let x = unsafe { std::ptr::read_volatile(p.add(v.len() + 3)) };
+    if x == 77 {
+      println!("selftest byte {x}");
+    }
+  }
   let ids = hostile::pure_ids();
   let mut pb = PureBench::new(1024);
   let mut st = hostile::GenState::default();
